@@ -73,7 +73,11 @@ CLAIMED = {
                      "kinds: duplicated/foreign/missing identifiers, free-and-stored, lengths, identifier bytes and padding bits, "
                      "short/long/ill-typed rows, duplicated/removed/empty archetypes), encodes it in both encodings, runs the real "
                      "deserializer, compares verdict and resulting world with the model, audits created vs dropped values after "
-                     "every failed attempt. Known finding F9 (class K11). PARTIAL: token-level malformation other than an ill-typed "
+                     "every failed attempt. Cleanup of a failed row-wise table at the cell level (coq/Model/DeRows.v): for every number of "
+                     "columns, declared length and rows (short, long, ill-typed at any cell, too few rows) a failure drops exactly the "
+                     "values it created and a success none -- with the two repairs of finding F9 (fixed by /repo 6ba6288: the recursion "
+                     "pops what it pushed when the rest of the row fails; the caller is told when a row was stored completely) read "
+                     "off the source (fact_de_row_*) and each shown necessary. PARTIAL: token-level malformation other than an ill-typed "
                      "value is left to serde; no undefined behaviour is *proved* absent at the raw-parts level (see C05/C17).",
                 technique="Rocq proof that every accepted content yields an Inv world (all inputs) + content-mutation differential execution against the real deserializer with drop audit",
                 ref="DESIGN.md §7 C11"),
